@@ -1,6 +1,9 @@
 import GeomV.C10.GeomTransform
 import GeomV.C10.Transformer
+import GeomV.C10.Mem
+import GeomV.C10.Ctors
 /-!
-# C10 model = `GeomTransform` (the eight `Transform` methods of /repo/transform.go) +
-`Transformer` (the closure of proj/transform.go with `adjust_axis` and its effect on shared `*SR`s).
+# C10 model = `GeomTransform` (the eight `Transform` methods of /repo/transform.go, functional) +
+`Transformer` (the closure of proj/transform.go with `adjust_axis` and its effect on shared `*SR`s) +
+`Mem` (the eight `Transform` methods on Go memory) + `Ctors` (what the projection constructors write).
 -/
